@@ -173,6 +173,10 @@ def main(argv):
                     continue
                 rec['unlisted_failing_inputs'] = unlisted
                 json.dump(rec, open(rp, 'w'), indent=1)
+            if v.get('relaxed') and not failing:
+                # proof only failed after the position-based annotations were dropped and no concrete input fails: undecided
+                undecided.append('%s: %s changed shape (annotations no longer apply) and no witness fails on it: %s' % (v['unit'], v['fn'], v['id']))
+                continue
             new_violations += 1
             tail = '' if (failing or v.get('cex')) else ' no-failing-input-found'
             lines.append('FAILED-OBLIGATION %s (%s) %s' % (v['id'], v['message'], ('failing inputs: ' + ', '.join(x['name'] + ' [' + x.get('input', '') + '] -> ' + x.get('observed', '') for x in failing)) if failing else ('kani counterexample: %s' % v.get('cex') if v.get('cex') else 'no concrete failing input')))
